@@ -1016,7 +1016,19 @@ func (c *pyConfig) MustGet(key string) pyObject {
 
 // Freeze returns a copy of this config that is frozen for further updates.
 func (c *pyConfig) Freeze() pyObject {
-	return &pyFrozenConfig{pyConfig: *c}
+	frozen := pyConfig{base: c.base}
+	if c.overlay != nil {
+		// The overlay ends up in the CONFIG of every package that subincludes this file, so the
+		// lists and dicts in it must not be writable by any of them.
+		frozen.overlay = make(pyDict, len(c.overlay))
+		for k, v := range c.overlay {
+			if f, ok := v.(freezable); ok {
+				v = f.Freeze()
+			}
+			frozen.overlay[k] = v
+		}
+	}
+	return &pyFrozenConfig{pyConfig: frozen}
 }
 
 // Merge merges the contents of the given config object into this one.
